@@ -177,7 +177,7 @@ func checkLookupBody(p *Prog, r *Report, clause string) {
 			if len(ret.Results) == 2 {
 				okv = ret.Results[1]
 			}
-			if c, isC := okv.(*ssa.Const); isC && c.Value != nil && c.Value.String() == "false" {
+			if c, isC := asConst(okv); isC && c.Value != nil && c.Value.String() == "false" {
 				continue
 			}
 			nPos++
